@@ -9,6 +9,14 @@ TRUST = ("Trusted: the VC generator govc (SSA->SMT translation, memory model, lo
          "(strconv, strings, fmt, log, encoding/binary, ...). The PEG parsers (pigeon) and the asmdb JSON table are outside every contract.")
 
 claimed = {
+ "C07": dict(
+   text="Deductive proof, with a ghost record of error-level log lines (colog prefixes error:/err:/alert: on literal format strings), of the places where pass 1 decides that it cannot handle a statement: TraverseAST leaves an error-level diagnostic for every operand-less statement and every statement without operands whose mnemonic has no pass-1 handler (for every content of the handler table), and - after the repair (fix commit) - ocodeClient.Emit leaves one whenever a line cannot be turned into an ocode and appends nothing in that case.",
+   note=TRUST + " PARTIAL: only these two drop points are decided. Not decided: that each pass-1 handler reports every operand shape it rejects (they log with capitalised 'Error:' prefixes, which colog prints at info level), undefined symbols, that GenerateX86 reports every processOcode failure (it does, but events inside loops are not tracked), and the link to the exit status. TraverseAST's other clauses (mode, frame) are trusted and its panic sites are not analysed.",
+   design="DESIGN.md section 4, C07"),
+ "C01": dict(
+   text="Deductive proofs over the real leaf encoders that every instruction handler uses: GetRegisterNumber gives each general, segment and control register name its SDM number and rejects everything else; ModRMByOperand/ModRMByValue build, for register operands, exactly mod=11 | reg<<3 | rm with the two registers in their roles (or the /digit), and for memory operands a ModR/M byte whose reg field is the register operand; calculateModRM's bytes decode to the written effective address (C02 clause, shared); getImmediateValue emits the low size*8 bits of the value little-endian; getImmediateSizeType has the signed thresholds; registerToPushPopCode gives the +r numbers of 16/32-bit registers only; handleINT emits CD ib; handleRET emits C3.",
+   note=TRUST + " PARTIAL, and the larger part is open: the per-mnemonic handlers (MOV, ALU, logical, IMUL, IN/OUT, PUSH/POP, no-operand table) that choose the asmdb row, prefixes and immediate width are not under contract, nor is the asmdb table itself (A3); the operand text parser is assumed (A1, A2), 64-bit register names are excluded (A16, recorded finding). Findings recorded: 64-bit names numbered like 32-bit ones; the five C02 regions.",
+   design="DESIGN.md section 4, C01"),
  "C03": dict(
    text="Deductive proofs tying the two independent size computations to one specification each: (a) memory operands - pass 1's CalcOffsetByteSize/CalcSibByteSize and the emitter's calculateModRM are both proved, for every operand and both modes, to produce the number of displacement bytes and the SIB presence given by one SDM-derived size function of the operand (so they agree wherever both proofs hold; six input regions where the current tree disagrees are recorded findings); (b) data directives - processDB/DW/DD/RESB/ALIGNB advance LOC by exactly the number of bytes handleDB/DW/DD/RESB/ALIGNB emit for the values handed over (loop invariants, any list length); (c) jumps - estimateJumpSize/getOffsetSize size classes; (d) the origin reaches code generation unchanged (SetDollarPosition, Pass2.Eval) and `$`/label values are read from the table pass 1 filled (ImmExp.Eval, SetSymbolTable); (e) GetOutputSize is the row's byte count (opcode-length finding recorded).",
    note=TRUST + " PARTIAL: the summation itself (every label = origin + sum of the sizes of the statements before it) happens in pass1.TraverseAST, which is only used through a trusted frame contract; FindMinOutputSize/GetPrefixSize (prefix bytes) and the per-instruction pass-1 handlers are not under contract; the jump size estimate is known to disagree with emission (C04 findings).",
